@@ -144,6 +144,32 @@ class Tables:
                 return "error", tuple(st), steps
 
 
+def rhs_constants_deep(P, f, n, depth=0, seen=None):
+    """rhs_constants, following values through first-party helpers: `x->type = helper(..)` contributes every constant a return
+    statement of the helper (two levels) can yield, `x->type = local` the constants assigned to that local."""
+    seen = seen if seen is not None else set()
+    out = list(rhs_constants(n))
+    s = strip(n)
+    if s is None or depth > 3:
+        return out
+    if s["k"] == "ConditionalOperator":
+        return out + rhs_constants_deep(P, f, s["c"][1], depth + 1, seen) + rhs_constants_deep(P, f, s["c"][2], depth + 1, seen)
+    if s["k"] == "CallExpr" and s.get("callee"):
+        h = P.resolve(f, s["callee"])
+        if h is not None and P.first_party(h) and h.name not in seen:
+            seen.add(h.name)
+            for r in h.walk():
+                if r["k"] == "ReturnStmt" and r.get("c") and r["c"][0] is not None:
+                    out += rhs_constants_deep(P, h, r["c"][0], depth + 1, seen)
+    elif s["k"] == "DeclRefExpr" and s.get("dk") == "Var":
+        for x in f.walk():
+            if x["k"] == "VarDecl" and x.get("n") == s["n"] and x.get("c") and x["c"][0] is not None:
+                out += rhs_constants_deep(P, f, x["c"][0], depth + 1, seen)
+            elif x["k"] == "BinaryOperator" and x["op"] == "=" and key(x["c"][0]) == s["n"]:
+                out += rhs_constants_deep(P, f, x["c"][1], depth + 1, seen)
+    return out
+
+
 def line_alphabet(P, T):
     """Real terminals: every constant in the terminal range stored into a token's `type`
     field outside the generated parser (over-approximation of what reaches Parse())."""
@@ -157,7 +183,7 @@ def line_alphabet(P, T):
             lhs = strip(n["c"][0])
             if lhs["k"] != "MemberExpr" or lhs["n"] != "type" or lhs.get("rec") != "token":
                 continue
-            for v in rhs_constants(n["c"][1]):
+            for v in rhs_constants_deep(P, f, n["c"][1]):
                 if 0 < v < T.nterminal:
                     alpha.setdefault(v, "%s:%d %s" % (f.base, n["l"], f.name))
     return alpha
